@@ -1,9 +1,10 @@
-(* Tie by proof between keeper.GetCostOfName as generated from x/rns/keeper/utils.go's current source
-   (Gen/GoRns.v) and the model of C16 (Model/RnsReg.v).  The base cost of a TLD (a map lookup in
-   types.TLDCost) is a read of the generated function; the tie instantiates it with the model's table,
-   whose two entries the correspondence compares with the running code on every run. *)
-From Coq Require Import ZArith List Bool Lia.
-From JK Require Import Base.Dec Base.GoSem Gen.GoRns Model.RnsReg.
+(* Ties by proof between the functions generated from x/rns/keeper's current source (Gen/GoRns.v:
+   GetCostOfName, RegisterRNSName) and the model of C16 (Model/RnsReg.v).  The base cost of a TLD (a map lookup
+   in types.TLDCost) is a read of the generated function; the tie instantiates it with the model's table, whose
+   two entries the correspondence compares with the running code on every run. *)
+From Coq Require Import ZArith NArith List Bool String Lia.
+From JK Require Import Base.Dec Base.AList Base.GoSem Gen.GoRns Model.RnsReg.
+Import ListNotations.
 Open Scope Z_scope.
 
 Lemma wrap_small x : - 2 ^ 63 <= x <= 2 ^ 63 - 1 -> wrap64 x = x.
@@ -34,4 +35,162 @@ Proof.
     destruct (len =? 2); [reflexivity| |reflexivity|];
     destruct (len =? 3); [reflexivity| |reflexivity|];
     destruct (len =? 4); reflexivity.
+Qed.
+
+(* ---------------- RegisterRNSName ---------------- *)
+
+Definition w_found (w : option name_rec) : bool := match w with Some _ => true | None => false end.
+Definition w_expires (w : option name_rec) : Z := match w with Some r => n_expires r | None => 0 end.
+Definition w_other (w : option name_rec) (owner : N) : bool :=
+  match w with Some r => negb (N.eqb (n_owner r) owner) | None => false end.
+
+(* what a registration does, in terms of the model's own cost, admission and expiry functions *)
+Definition register_events (len : Z) (t : tld) (years h : Z) (sender_ok : bool) (whois : option name_rec) (owner : N)
+           (ok_charge ok_pol primary has_primary : bool) : gres (list gev * bool) :=
+  if is_reserved t then GVal ([], false) else
+  match cost_of_name len t with
+  | None => GVal ([], false)
+  | Some cost =>
+    if term_rejected cost years then GVal ([], false) else
+    let price := wrap64 (cost * years) in
+    if price <? 0 then GPanic else
+    let time := wrap64 (years * blocks_per_year) in
+    if negb sender_ok then GVal ([], false) else
+    match new_expiry whois owner h time with
+    | None => GVal ([], false)
+    | Some e =>
+      if negb ok_charge then GVal ([Ev "charge-sender" [price]], false) else
+      if negb ok_pol then GVal ([Ev "charge-sender" [price]; Ev "module-to-pol" [price]], false) else
+      GVal ([Ev "charge-sender" [price]; Ev "module-to-pol" [price]; Ev "set-name-expires" [e]]
+              ++ (if primary || negb has_primary then [Ev "set-primary" []] else []), true)
+    end
+  end.
+
+Lemma cost_pos len t c : cost_of_name len t = Some c -> 1 <= c <= 2 ^ 40.
+Proof.
+  unfold cost_of_name. assert (10000000 <= tld_cost t <= 50000000) by (destruct t; cbn; lia).
+  destruct (len =? 0); [discriminate|].
+  destruct (len =? 1); [intros [= <-]; lia|].
+  destruct (len =? 2); [intros [= <-]; lia|].
+  destruct (len =? 3); [intros [= <-]; lia|].
+  destruct (len =? 4); [intros [= <-]; lia|].
+  intros [= <-]; lia.
+Qed.
+
+Ltac Zify.zify_post_hook ::= Z.to_euclidean_division_equations.
+
+Lemma term_rejected_gen cost years :
+  1 <= cost <= 2 ^ 40 ->
+  (glet t3 := (if orb (years <? 1) (cost <? 1) then GVal true
+               else (glet t2 := i64quo 9223372036854775807 cost in GVal (t2 <? years))) in
+   GVal (orb t3 (1681706916883 <? years)))
+  = GVal (term_rejected cost years).
+Proof.
+  intros Hc. unfold term_rejected, i64quo, blocks_per_year, int64_max.
+  destruct (Z.ltb_spec cost 1); [lia|]. destruct (Z.eqb_spec cost 0); [lia|].
+  rewrite !Z.gtb_ltb.
+  change (2 ^ 63 - 1) with 9223372036854775807.
+  change (9223372036854775807 / 5484530) with 1681706916883.
+  assert (E : wrap64 (Z.quot 9223372036854775807 cost) = 9223372036854775807 / cost).
+  { rewrite Z.quot_div_nonneg by lia. apply wrap_small.
+    assert (0 <= 9223372036854775807 / cost <= 9223372036854775807); [|lia].
+    split; [apply Z.div_pos; lia | apply Z.div_le_upper_bound; nia]. }
+  destruct (years <? 1); cbn [orb gbind]; [reflexivity|]. rewrite E. reflexivity.
+Qed.
+
+Theorem gen_RegisterRNSName_model len t years h sender_ok whois owner ok_charge ok_pol primary has_primary :
+  gen_RegisterRNSName true (is_reserved t) (tld_cost t) len years h sender_ok
+    (w_found whois) (w_expires whois) (w_other whois owner) ok_charge true ok_pol primary has_primary
+  = register_events len t years h sender_ok whois owner ok_charge ok_pol primary has_primary.
+Proof.
+  unfold gen_RegisterRNSName, register_events. cbn [negb].
+  destruct (is_reserved t); [reflexivity|].
+  rewrite gen_GetCostOfName_model. cbn [gbind].
+  destruct (cost_of_name len t) as [cost|] eqn:EC; [|reflexivity]. cbn [negb].
+  pose proof (cost_pos len t cost EC) as Hc.
+  pose proof (term_rejected_gen cost years Hc) as TR.
+  destruct (if orb (years <? 1) (cost <? 1) then GVal true
+            else (glet t2 := i64quo 9223372036854775807 cost in GVal (t2 <? years))) as [t3|] eqn:E3;
+    cbn [gbind] in TR |- *; [|discriminate].
+  injection TR as TR. rewrite TR.
+  destruct (term_rejected cost years); [reflexivity|].
+  unfold gcoin64, i64mul. destruct (wrap64 (cost * years) <? 0); [reflexivity|]. cbn [gbind].
+  destruct sender_ok; cbn [negb]; [|reflexivity].
+  unfold new_expiry, w_found, w_expires, w_other, i64sub, i64add, blocks_per_year, int64_max.
+  change (2 ^ 63 - 1) with 9223372036854775807. cbv zeta.
+  destruct whois as [w|]; cbn [andb]; rewrite ?Z.gtb_ltb.
+  - destruct (h <? n_expires w); rewrite ?Z.gtb_ltb.
+    + destruct (negb (N.eqb (n_owner w) owner)); [reflexivity|]. rewrite ?Z.gtb_ltb.
+      destruct (wrap64 (9223372036854775807 - n_expires w) <? wrap64 (years * 5484530)); [reflexivity|].
+      destruct ok_charge; cbn [negb app]; [|reflexivity].
+      destruct ok_pol; cbn [negb app]; [|reflexivity].
+      destruct (primary || negb has_primary); reflexivity.
+    + destruct (wrap64 (9223372036854775807 - h) <? wrap64 (years * 5484530)); [reflexivity|].
+      destruct ok_charge; cbn [negb app]; [|reflexivity].
+      destruct ok_pol; cbn [negb app]; [|reflexivity].
+      destruct (primary || negb has_primary); reflexivity.
+  - destruct (wrap64 (9223372036854775807 - h) <? wrap64 (years * 5484530)); [reflexivity|].
+    destruct ok_charge; cbn [negb app]; [|reflexivity].
+    destruct ok_pol; cbn [negb app]; [|reflexivity].
+    destruct (primary || negb has_primary); reflexivity.
+Qed.
+
+(* ---------------- the model's step is the interpretation of those events over its bank and stores ---------------- *)
+
+Definition is_some {A} (o : option A) : bool := match o with Some _ => true | None => false end.
+
+(* the answers the model's bank gives to the two transfers of a registration *)
+Definition ok_charge_of (acc : accts) (s : rstate) (owner : N) (price : Z) : bool :=
+  negb (price =? 0) && is_some (send (s_bank s) owner (a_mod acc) price).
+Definition ok_pol_of (acc : accts) (s : rstate) (owner : N) (price : Z) : bool :=
+  match send (s_bank s) owner (a_mod acc) price with
+  | Some b1 => is_some (send b1 (a_mod acc) (a_pol acc) price)
+  | None => false
+  end.
+Definition has_primary_of (s : rstate) (idx owner : N) (r : name_rec) : bool :=
+  match aget N.eqb (s_primary s) owner with
+  | Some p => has_name (aset N.eqb (s_names s) idx r) p
+  | None => false
+  end.
+
+Theorem register_is_the_interpretation acc s op idx len t :
+  o_basic_ok op = true -> o_parse op = Some (idx, len, t) ->
+  let whois := aget N.eqb (s_names s) idx in
+  let owner := o_sender op in
+  let price := match cost_of_name len t with Some c => wrap64 (c * o_years op) | None => 0 end in
+  let e0 := match new_expiry whois owner (o_height op) (wrap64 (o_years op * blocks_per_year)) with Some e => e | None => 0 end in
+  let r := {| n_owner := owner; n_expires := e0; n_data := o_data op; n_locked := 0; n_subs := 0 |} in
+  register acc s op
+  = match register_events len t (o_years op) (o_height op) (o_sender_ok op) whois owner
+            (ok_charge_of acc s owner price) (ok_pol_of acc s owner price) (o_primary op) (has_primary_of s idx owner r) with
+    | GPanic => (Panic, s)
+    | GVal (_, false) => (Fail, s)
+    | GVal (evs, true) =>
+        match send (s_bank s) owner (a_mod acc) price with
+        | Some b1 =>
+            match send b1 (a_mod acc) (a_pol acc) price with
+            | Some b2 =>
+                (Ok, {| s_names := aset N.eqb (s_names s) idx r;
+                        s_primary := if existsb (fun ev => match ev with Ev tag _ => String.eqb tag "set-primary" end) evs
+                                     then aset N.eqb (s_primary s) owner idx else s_primary s;
+                        s_bank := b2 |})
+            | None => (Fail, s)
+            end
+        | None => (Fail, s)
+        end
+    end.
+Proof.
+  intros Hb Hp. cbv zeta. unfold register, register_events. rewrite Hb, Hp. cbn [negb].
+  destruct (is_reserved t); [reflexivity|].
+  destruct (cost_of_name len t) as [cost|]; [|reflexivity].
+  destruct (term_rejected cost (o_years op)); [reflexivity|]. cbv zeta.
+  destruct (wrap64 (cost * o_years op) <? 0); [reflexivity|].
+  destruct (o_sender_ok op); cbn [negb]; [|reflexivity].
+  destruct (new_expiry (aget N.eqb (s_names s) idx) (o_sender op) (o_height op) (wrap64 (o_years op * blocks_per_year)))
+    as [e|]; [|reflexivity].
+  unfold ok_charge_of, ok_pol_of, has_primary_of.
+  destruct (wrap64 (cost * o_years op) =? 0); cbn [negb andb]; [reflexivity|].
+  destruct (send (s_bank s) (o_sender op) (a_mod acc) (wrap64 (cost * o_years op))) as [b1|]; cbn [is_some negb]; [|reflexivity].
+  destruct (send b1 (a_mod acc) (a_pol acc) (wrap64 (cost * o_years op))) as [b2|]; cbn [is_some negb]; [|reflexivity].
+  destruct (o_primary op || negb _); reflexivity.
 Qed.
